@@ -551,6 +551,10 @@ func expectStream(c *StreamCase, refs []RefResult) streamExpect {
 // runStreamCase executes a stream-world case and evaluates the checks that
 // belong to the given mode.
 func runStreamCase(c *StreamCase, keepLog bool) Outcome {
+	lang.VerifResetProcessState()
+	if c.ProgText == "" && c.Prog != nil {
+		c.ProgText = c.Prog.Render()
+	}
 	run := newStreamRun(c, keepLog)
 	ex := expectStream(c, run.refs)
 	if ex.ok && !ex.dubious && c.Mode != "c01" {
@@ -595,8 +599,14 @@ func runStreamCase(c *StreamCase, keepLog bool) Outcome {
 			return o
 		}
 	}
-	// classify the mismatch
+	// classify the mismatch against the alternative with the same outcome kind, if any
 	a := ex.alts[0]
+	for _, alt := range ex.alts {
+		if alt.kind == res.kind {
+			a = alt
+			break
+		}
+	}
 	switch {
 	case a.kind == "JsonError" && res.kind == "success":
 		o.Class = "missing-json-error"
